@@ -251,7 +251,7 @@ func TestPropConcurrentUse(t *testing.T) {
 	ctx := context.Background()
 	pool := keys.Pool()
 	ev.Check(t, 30, 300, func(t *rapid.T) {
-		g := doc.NewG(t, doc.Config{Anchors: rapid.Bool().Draw(t, "anchors"), Timestamps: true, Floats: true, BigMaps: true, BigMapOneIn: 6,
+		g := doc.NewG(t, doc.Config{EmptyCfgBias: true, Anchors: rapid.Bool().Draw(t, "anchors"), Timestamps: true, Floats: true, BigMaps: true, BigMapOneIn: 6,
 			EmptyKey: true, EmptyMatrix: true, BothCommands: true})
 		root := g.Pipeline()
 		d, err := doc.Render(root, 2, 20000)
